@@ -6,6 +6,7 @@ uniformity, exact + monotone reveal, untouched rows / plate assignment / observa
 plate counters incl. `extract_screen_metadata.main()` on the saved file) and its canonical text is compared with the
 trace of the Lean model (`hist` of lean/Batchie/Model/RetroIO.lean).  Two more streams: the constructor's treatment of
 masks (`mkscreen`) and `Screen.set_observed` (`setobs`)."""
+import contextlib
 import itertools
 import json
 import logging
@@ -38,7 +39,10 @@ RULE = ("histories: screens with 1-8 plates (1..14 rows quick, ..40 thorough; ev
         "wholly observed or wholly masked (an observed and a masked screen sharing a plate name must be refused, also when the "
         "plate's rows are interleaved with other plates), one status per plate across parts, or random; other control name / arity; "
         "inputs snapshotted and compared.  Non-trivial history: >= 2 plates and a successful reveal that newly reveals a plate "
-        "while another plate stays hidden.  Fixed corpus first: NaN/zero guards (plate with ONE NaN well, all-NaN plate, all-zero plate, alone and together with finite plates, "
+        "while another plate stays hidden.  Entry points (class.entry-point.*): reveal_plate.main() (12% of the reveals + corpus; the plate ids REACHING reveal_plates are recorded "
+        "and must be the requested set, id 0 included; the output file is judged like a library reveal) and extract_screen_metadata.main() "
+        "(counters of the json it writes).  class.verbose-logging: every 7th case of every stream and a quarter of the NaN corpus run under "
+        "vlib.common.verbose_logging(), CLI mains with --verbose (replay re-enters it).  Fixed corpus first: NaN/zero guards (plate with ONE NaN well, all-NaN plate, all-zero plate, alone and together with finite plates, "
         "library and CLI; three requests through the CLI in another interpreter).  Hardening classes (class.*): 30% non-C / read-only layouts, "
         "plate ids as list / np.int64 / ndarray / tuple, 10% plate names >= 25 chars, 8% with 11-13 plates named plate_<k>; every snapshot holds "
         "all instance attributes found by introspection.  Non-mutation (aliasing) clause: every screen object is snapshotted before an "
@@ -162,18 +166,48 @@ def check_unchanged(res, case, before, after, what, with_mask):
     return True
 
 
+VERBOSE = [False]          # set while a case runs under vlib.common.verbose_logging(): the CLI mains then get --verbose
+
+
+@contextlib.contextmanager
+def maybe_verbose(case):
+    """cases with "verbose": true run the way every command runs under -v/--verbose (replay re-enters this)"""
+    if case.get("verbose") and not VERBOSE[0]:
+        with common.verbose_logging():
+            VERBOSE[0] = True
+            try:
+                yield
+            finally:
+                VERBOSE[0] = False
+    else:
+        yield
+
+
+def verbose_aware(fn):
+    import functools
+
+    @functools.wraps(fn)
+    def wrapped(case, *a, **kw):
+        with maybe_verbose(case):
+            return fn(case, *a, **kw)
+    return wrapped
+
+
 def run_cli(mod, argv):
-    old = sys.argv
-    sys.argv = list(argv)
+    import io
+    lg = logging.getLogger("batchie")           # configure_logging adds a handler and resets the level on every call
+    handlers, level = list(lg.handlers), lg.level
+    old, old_err = sys.argv, sys.stderr
+    sys.argv = list(argv) + (["--verbose"] if VERBOSE[0] else [])
+    sys.stderr = io.StringIO()
     try:
         mod.main()
     except SystemExit as e:                     # argparse refused the command line
         raise RuntimeError("command line rejected (exit %s)" % (e.code,))
     finally:
-        sys.argv = old
-        lg = logging.getLogger("batchie")       # configure_logging adds a handler per call
-        for h in list(lg.handlers):
-            lg.removeHandler(h)
+        sys.argv, sys.stderr = old, old_err
+        lg.handlers[:] = handlers
+        lg.setLevel(level)
 
 
 def metadata(s, tmp):
@@ -185,14 +219,24 @@ def metadata(s, tmp):
         os.remove(out)
     s.save_h5(fn)
     run_cli(extract_screen_metadata, ["extract_screen_metadata", "--screen", fn, "--output", out])
+    metadata.calls += 1
     with open(out) as f:
         return json.load(f)
+
+
+metadata.calls = 0
 
 
 def check_meta(res, case, s, snap, meta):
     names = set(snap["plate_names"])
     n_un = n_unobserved(snap)
     want = {"n_unobserved_plates": n_un}           # the counter the text speaks of; the others are compared through the stage string
+    if not isinstance(meta, dict) or any(k not in meta for k in want):
+        # the harness's knowledge of the json's key names is part of the tie, not an oracle
+        res.count("layout.unexpected")
+        if res.distribution.get("layout.unexpected", 0) <= 3:
+            res.disagree("C12:metadata-json-layout", {"what": "screen_metadata.json has no key n_unobserved_plates"}, str(meta)[:300], str(sorted(want)))
+        return True
     got = {k: meta.get(k) for k in want}
     if got != want:
         res.fail("screen_metadata.json counters differ from a recount of the screen", case, got, want, signature=SIG_META)
@@ -454,6 +498,7 @@ def judge_reveal(res, case, before, ids, after, exc, via):
     return newly
 
 
+@verbose_aware
 def run_history(case, tmp, res, rng=None, n_steps=0, meta_p=0.5):
     """execute a history on the real code, judging every stage.  With `rng` the steps are chosen while running and
     appended to case['ops']; otherwise case['ops'] is replayed.  Returns (impl trace, info)."""
@@ -571,11 +616,26 @@ def run_history(case, tmp, res, rng=None, n_steps=0, meta_p=0.5):
                     os.remove(fout)
                 cur.save_h5(fin)
                 cli_exc = None
+                received = []
+                real_reveal = reveal_plate.reveal_plates
+
+                def spy(screen_, plate_ids_, _real=real_reveal, _rec=received):
+                    _rec.append([int(i) for i in plate_ids_])
+                    return _real(screen_, plate_ids_)
+                reveal_plate.reveal_plates = spy
                 try:
                     run_cli(reveal_plate, ["reveal_plate", "--screen", fin, "--output", fout, "--plate-id"] + [str(i) for i in ids])
                     new = Screen.load_h5(fout)
                 except Exception as e:
                     cli_exc = e
+                finally:
+                    reveal_plate.reveal_plates = real_reveal
+                res.count("class.entry-point.reveal_plate")
+                # what the core RECEIVES: the requested plates (as a set: order / repetition are the glue's business), id 0 included
+                existing_ = set(snap["plate_ids"])
+                if received and set(received[0]) & existing_ != set(ids) & existing_:
+                    res.fail("the plate ids reaching reveal_plates from reveal_plate.main() are not the plates named on the command line", c,
+                             {"received": received[0]}, {"--plate-id": ids}, signature=SIG_CLI)
                 a = S.err_tok(lib_exc) if lib_exc is not None else show_stage(lib)
                 b = S.err_tok(cli_exc) if cli_exc is not None else show_stage(new)
                 if a != b:
@@ -647,7 +707,7 @@ def run_history(case, tmp, res, rng=None, n_steps=0, meta_p=0.5):
                 check_meta(res, c, new, after, meta)
             except Exception as e:
                 res.fail("extract_screen_metadata fails on a saved screen", c, "%s: %s" % (type(e).__name__, e), "counters", signature=SIG_RAISES)
-        if kind in "rc" and old_meta is not None and meta is not None:
+        if kind in "rc" and old_meta is not None and meta is not None and "n_unobserved_plates" in old_meta and "n_unobserved_plates" in meta:
             existing = set(snap["plate_ids"])
             newly = len((set(parse_ids(op[1:])) & existing) - observed_set(snap["plate_ids"], snap["observation_mask"]))
             drop = old_meta.get("n_unobserved_plates", 0) - meta.get("n_unobserved_plates", 0)
@@ -792,6 +852,7 @@ def gen_ctor_case(rng, n_max):
     return {"kind": "ctor", "mode": mode, "raw": raw, "obs_bits": obs_bits_list(raw)}
 
 
+@verbose_aware
 def run_ctor_case(case, res):
     raw = raw_with_bits(case)
     mode = case["mode"]
@@ -898,6 +959,7 @@ def combine_parts(case):
     return out
 
 
+@verbose_aware
 def run_combine_case(case, res):
     from batchie.data import Screen
     raws = combine_parts(case)
@@ -957,6 +1019,7 @@ def gen_setobs_case(rng, n_max):
     return {"kind": "setobs", "raw": raw, "obs_bits": obs_bits_list(raw), "sel": sel, "val_bits": vals}
 
 
+@verbose_aware
 def run_setobs_case(case, res):
     """The ORACLE speaks only about well-formed calls -- a boolean selection of the screen's length and exactly one value per
     selected row (what the text says: "directly marking a selection observed stores exactly the given values at exactly those
@@ -1023,6 +1086,8 @@ def one_history(ctx, res, tie, tmp, case, rng=None, n_steps=0, where="C12:hist")
         seg = dict(case)
         seg["ops"] = seg_ops
         tie.add(where, hist_line(seg), seg_trace, seg, split=True)
+    if case.get("verbose"):
+        res.count("class.verbose-logging")
     res.count("class.input-mutation")                    # every input snapshotted before / compared after every step + at the end
     res.count("class.attribute-completeness")            # all instance attributes by introspection in every snapshot
     if case.get("branches") or case.get("late"):
@@ -1048,7 +1113,8 @@ def run(ctx, res):
     tmp = tempfile.mkdtemp(prefix="verif_c12_")
     try:
         # ---- 0. fixed corpus: NaN / zero guards, library and CLI, and the CLI in another interpreter -----------
-        for case in nan_corpus():
+        for i_, case in enumerate(nan_corpus()):
+            case["verbose"] = i_ % 4 == 1
             trace, info = one_history(ctx, res, tie, tmp, case, where="C12:hist:nan-corpus")
             res.count("corpus.nan-guard")
             res.count("corpus.nan-guard.%s" % ("refused" if trace[-1].startswith("err:") else "revealed"))
@@ -1089,7 +1155,7 @@ def run(ctx, res):
                     # plate names of >= 25 characters of unequal length
                     raw = rename_plates(raw, lambda i, p: p + "_" + "0123456789abcdef" * (1 + i % 3) + "0123456789"[:i % 10])
                     kind += "+long-plate-names"
-            case = {"kind": "hist", "raw": raw, "obs_bits": obs_bits_list(raw), "ops": [],
+            case = {"kind": "hist", "raw": raw, "obs_bits": obs_bits_list(raw), "ops": [], "verbose": t % 7 == 3,
                     "layout": rng.choice(LAYOUTS) if rng.random() < 0.3 else "c",
                     "ids_as": rng.choice(["list", "list", "np.int64-list", "np.array", "tuple"])}
             if case["layout"] != "c" or case["ids_as"] != "list" or "long-plate" in kind:
@@ -1136,6 +1202,9 @@ def run(ctx, res):
         # ---- 3. constructor ------------------------------------------------------------------------
         for t in range(n_ctor):
             case = gen_ctor_case(rng, 14 if not thorough else rng.choice([14, 14, 40]))
+            case["verbose"] = t % 7 == 3
+            if case["verbose"]:
+                res.count("class.verbose-logging")
             out = run_ctor_case(case, res)
             res.evaluations += 1
             res.count("ctor." + case["mode"])
@@ -1144,6 +1213,9 @@ def run(ctx, res):
         skipped = 0
         for t in range(n_set):
             case = gen_setobs_case(rng, 14 if not thorough else rng.choice([14, 14, 40]))
+            case["verbose"] = t % 7 == 3
+            if case["verbose"]:
+                res.count("class.verbose-logging")
             try:
                 out = run_setobs_case(case, res)
             except Exception as e:
@@ -1160,6 +1232,9 @@ def run(ctx, res):
         # ---- 5. combine / concat -------------------------------------------------------------------
         for t in range(ctx.scale(150, 2000, 1000)):
             case = gen_combine_case(rng, 6 if not thorough else rng.choice([6, 6, 20]))
+            case["verbose"] = t % 7 == 3
+            if case["verbose"]:
+                res.count("class.verbose-logging")
             try:
                 out = run_combine_case(case, res)
             except Exception as e:
@@ -1172,6 +1247,7 @@ def run(ctx, res):
                 res.count("combine.other-" + case["odd"])
             tie.add("C12:combine", combine_line(case), out, case)
         tie.flush()
+        res.count("class.entry-point.extract_screen_metadata", metadata.calls)
     finally:
         shutil.rmtree(tmp, ignore_errors=True)
 
